@@ -21,13 +21,33 @@ func IterateStructFields(structNode Node, cb func(Node) (done bool)) {
 // Only those methods that comply with the getter compliant method will be processed.
 // If the callback function returns true, the iteration stops.
 func IterateStructMethods(structNode Node, cb func(Node) (done bool)) {
+	addressable := isAddressable(structNode)
 	util.IterateMethods(structNode.ExprType(), func(fn *types.Func) (done bool) {
 		if !util.CompliesGetter(fn) {
+			return
+		}
+		if sig, ok := fn.Type().(*types.Signature); ok && !addressable && sig.Recv() != nil && util.IsPtr(sig.Recv().Type()) {
+			// A method with a pointer receiver cannot be called on a value without an address.
 			return
 		}
 		node := NewStructMethodNode(structNode, fn)
 		return cb(node)
 	})
+}
+
+// isAddressable reports whether the value the node denotes has an address: a variable, a field
+// of an addressable struct, or anything reached through a pointer. The result of a method call
+// that is not a pointer has none.
+func isAddressable(node Node) bool {
+	for n := node; n != nil; n = n.Parent() {
+		if util.IsPtr(n.ExprType()) {
+			return true
+		}
+		if _, ok := n.(StructMethodNode); ok {
+			return false
+		}
+	}
+	return true
 }
 
 // IsRecursive checks if the given type is the same as any of the ancestor nodes in the
